@@ -235,9 +235,11 @@ pub fn fnv_str(s: &str) -> u64 {
 }
 
 pub fn hex(b: &[u8]) -> String {
+    const H: &[u8; 16] = b"0123456789abcdef";
     let mut s = String::with_capacity(b.len() * 2);
     for x in b {
-        s.push_str(&format!("{:02x}", x));
+        s.push(H[(x >> 4) as usize] as char);
+        s.push(H[(x & 15) as usize] as char);
     }
     s
 }
@@ -1152,6 +1154,20 @@ pub fn supervisor_main(check: &dyn Check, tier: Tier) -> i32 {
         v.reverse();
         let total: u64 = v.iter().map(|x| x.0).sum();
         println!("profile: total unit time {} ms over {} units; slowest:", total, v.len());
+        if let Ok(b) = std::env::var("VERIF_PROFILE_BOUNDS") {
+            let bs: Vec<u64> = b.split(',').filter_map(|x| x.parse().ok()).collect();
+            let mut lo = 0u64;
+            for hi in bs.iter().chain(std::iter::once(&u64::MAX)) {
+                let (mut ms, mut st, mut tr) = (0u64, 0u64, 0u64);
+                for x in v.iter().filter(|x| x.1 >= lo && x.1 < *hi) {
+                    ms += x.0;
+                    st += x.2;
+                    tr += x.3;
+                }
+                println!("  units [{},{}): {} ms, {} states, {} transitions", lo, hi, ms, st, tr);
+                lo = *hi;
+            }
+        }
         for (ms, u, st, tr) in v.iter().take(25) {
             println!("  unit {:5}: {:7} ms  states {:9} transitions {:9}", u, ms, st, tr);
         }
